@@ -332,6 +332,39 @@ def rule_c08_r1(model: Model) -> RuleResult:
     return r
 
 
+def _total_sort_key(model: Model, f: FuncInfo, call: ast.Call) -> bool:
+    """sorted(<set>, key=...) with a key that is injective on the names: none, str, repr, or a tuple ending in one of them."""
+    kw = {k.arg: k.value for k in call.keywords if k.arg}
+    if 'reverse' in kw and set(kw) == {'reverse'}:
+        return True
+    key = kw.get('key')
+    if key is None:
+        return True
+
+    def total(e: ast.AST, param: t.Optional[str]) -> bool:
+        if isinstance(e, ast.Name) and e.id in ('str', 'repr') and param is None:
+            return True
+        if param is not None:
+            if isinstance(e, ast.Name) and e.id == param:
+                return True
+            if isinstance(e, ast.Call) and isinstance(e.func, ast.Name) and e.func.id in ('str', 'repr') and len(e.args) == 1 \
+                    and isinstance(e.args[0], ast.Name) and e.args[0].id == param:
+                return True
+            if isinstance(e, ast.Tuple) and e.elts:
+                return total(e.elts[-1], param)
+        return False
+    if total(key, None):
+        return True
+    if isinstance(key, ast.Lambda) and len(key.args.args) == 1:
+        return total(key.body, key.args.args[0].arg)
+    q = model.resolve(key, f.module, f)
+    g = model.functions.get(q or '')
+    if g is not None and isinstance(g.node, ast.FunctionDef) and len(g.params) == 1:
+        rets = [x for x in ast.walk(g.node) if isinstance(x, ast.Return) and x.value is not None]
+        return bool(rets) and all(total(x.value, g.params[0]) for x in rets)
+    return False
+
+
 def rule_c08_r2(model: Model) -> RuleResult:
     r = RuleResult('C08-R2', 'renderers iterate sets only through sorted(): the text does not depend on the hash seed', floor=2)
     for q in sorted(error_node_classes(model)):
@@ -352,6 +385,10 @@ def rule_c08_r2(model: Model) -> RuleResult:
                         if direct:
                             r.fail(f.qualname, f"for ... in {unparse(it)}", f.loc(st),
                                    "a set-valued field is rendered in iteration order: the message changes with PYTHONHASHSEED")
+                        elif not _total_sort_key(model, f, it):
+                            r.fail(f.qualname, f"for ... in {unparse(it)[:80]}", f.loc(st),
+                                   "the sort key does not tell all names apart (e.g. it folds case): names with equal keys keep the set's "
+                                   "iteration order, so the message changes with PYTHONHASHSEED")
                         else:
                             r.ok()
     return r
@@ -621,4 +658,33 @@ def rule_cause_rendered(model: Model, rule_id: str = 'C08-R9') -> RuleResult:
                    "the underlying exception is left out of the message in some contexts (e.g. inside a union alternative), although the node carries it")
         else:
             r.ok()
+    return r
+
+
+def rule_children_keep_order(model: Model, rule_id: str = 'C07-R6') -> RuleResult:
+    """C07: the children of a node stay in the order the diagnostic pass produced them (one per member / element, in declaration order)."""
+    r = RuleResult(rule_id, "no method of an error node sorts, reverses or de-duplicates its children (child i stays the tree of member i)", floor=5)
+    for q in sorted(error_node_classes(model)):
+        ci = model.cls(q)
+        for f in ci.methods.values():
+            if not isinstance(f.node, ast.FunctionDef):
+                continue
+            r.instances += 1
+            r.analysed.add(f.qualname)
+            bad = []
+            for c in ast.walk(f.node):
+                if not isinstance(c, ast.Call):
+                    continue
+                name = c.func.id if isinstance(c.func, ast.Name) else (c.func.attr if isinstance(c.func, ast.Attribute) else '')
+                if name in ('sorted', 'reversed', 'set', 'frozenset') and c.args and 'children' in unparse(c.args[0]):
+                    bad.append((c, f"{name}({unparse(c.args[0])[:40]})"))
+                if name in ('sort', 'reverse') and isinstance(c.func, ast.Attribute) and 'children' in unparse(c.func.value):
+                    bad.append((c, f"{unparse(c.func)[:50]}()"))
+            if bad:
+                for (node, what) in bad:
+                    r.fail(f.qualname, what, f.loc(node),
+                           "the children of the node are reordered: a union's node no longer lists one child per member in declaration order, "
+                           "so child i is not the tree of member i")
+            else:
+                r.ok()
     return r
